@@ -94,8 +94,26 @@ static std::vector<WOp> wops() {
   };
 }
 
+// A result is well formed when it has the right width, is reduced, and keeps
+// behaving as a w-bit number in follow-up operations (two-step histories: a
+// stale cached modulus or width only shows in the next operation).
 static bool wellformed(const wrapint &r, unsigned w) {
-  return r.get_bitwidth() == w && (w == 64 || r.get_uint64_t() < (1ULL << w));
+  if (!(r.get_bitwidth() == w && (w == 64 || r.get_uint64_t() < (1ULL << w)))) return false;
+  ull v = r.get_uint64_t();
+  wrapint one(1, w), three(3 & mask(w), w);
+  if ((r + one).get_uint64_t() != wrap((i128)v + 1, w)) return false;
+  if ((one + r).get_uint64_t() != wrap((i128)v + 1, w)) return false;
+  if ((r - one).get_uint64_t() != wrap((i128)v - 1, w)) return false;
+  if ((r * three).get_uint64_t() != (ull)(((u128)v * (u128)(3 & mask(w))) % MOD(w))) return false;
+  if ((-r).get_uint64_t() != wrap(-(i128)v, w)) return false;
+  if (w > 1 && (r << one).get_uint64_t() != (ull)(((u128)v << 1) % MOD(w))) return false;
+  wrapint t(r);
+  t += one;
+  if (t.get_uint64_t() != wrap((i128)v + 1, w)) return false;
+  wrapint u(r);
+  ++u;
+  if (u.get_uint64_t() != wrap((i128)v + 1, w)) return false;
+  return true;
 }
 
 static void wrapint_pair(unsigned w, ull a, ull b, const std::vector<WOp> &ops,
@@ -345,7 +363,13 @@ static void do_wrapped_interval(uint64_t &caseno, std::set<uint64_t> &nontriv) {
             if (a.is_bottom() || a.is_top()) break;
             wi_t z = a.ZExt(k), s = a.SExt(k);
             vp::stat("evaluations", 2);
+            // two-step history: the cast result must keep behaving as a (w+k)-bit interval
+            wi_t zp = z + wi_t(wrapint(mask(w), w + k)), sp = s * wi_t(wrapint(3, w + k));
             for (ull x : vals[i].mem) {
+              if (!wi_mem(zp, wrap((i128)x + (i128)mask(w), w + k), w + k))
+                vp::viol("wrapped_interval.ZExt;+:unsound", spec, vals[i].name + " zext " + std::to_string(k) + " then + " + u2s(mask(w)) + " -> " + wshow(zp));
+              if (!wi_mem(sp, wrap(sgn(x, w) * 3, w + k), w + k))
+                vp::viol("wrapped_interval.SExt;*:unsound", spec, vals[i].name + " sext " + std::to_string(k) + " then * 3 -> " + wshow(sp));
               if (!wi_mem(z, x, w + k))
                 vp::viol("wrapped_interval.ZExt:unsound", spec, vals[i].name + " zext " + std::to_string(k) + " -> " + wshow(z) + " misses " + u2s(x));
               if (!wi_mem(s, wrap(sgn(x, w), w + k), w + k))
